@@ -430,6 +430,7 @@ type Net struct {
 	Dials     []DialRec
 	peers     []*Conn // peer ends of accepted dials, not yet taken by the harness
 	LibConns  []*Conn // every library-side conn ever handed out (dial or accept)
+	PeerConns []*Conn // every harness-side end ever created
 	Listeners []*Listener
 	ListenErr func(attempt int) error // optional: make the n-th listen fail
 	listens   int
@@ -469,6 +470,7 @@ func (n *Net) Dial(ctx context.Context, network, address string) (net.Conn, erro
 	n.mu.Lock()
 	n.LibConns = append(n.LibConns, lib)
 	n.peers = append(n.peers, peer)
+	n.PeerConns = append(n.PeerConns, peer)
 	n.mu.Unlock()
 	poke(n.peerWake)
 	return lib, nil
@@ -527,12 +529,29 @@ func (n *Net) Connect() *Conn {
 	lib, peer := n.pipe("lib", "peer")
 	n.mu.Lock()
 	n.LibConns = append(n.LibConns, lib)
+	n.PeerConns = append(n.PeerConns, peer)
 	n.mu.Unlock()
 	l.mu.Lock()
+	if l.Closed {
+		// the listener was closed between the lookup and the enqueue: connection refused
+		l.mu.Unlock()
+		return nil
+	}
 	l.backlog = append(l.backlog, lib)
 	l.mu.Unlock()
 	poke(l.wake)
 	return peer
+}
+
+// ClosePeerEnds closes every harness-side end (so that harness goroutines blocked in a
+// Read return and the bubble can end).
+func (n *Net) ClosePeerEnds() {
+	n.mu.Lock()
+	ps := append([]*Conn(nil), n.PeerConns...)
+	n.mu.Unlock()
+	for _, p := range ps {
+		_ = p.Close()
+	}
 }
 
 // DialCount is the number of dial attempts so far.
